@@ -302,11 +302,20 @@ func getThresholdMatching(typ core.DutyType, sigs []core.ParSignedData, threshol
 		sigsByMsgRoot[root] = append(sigsByMsgRoot[root], sig)
 	}
 
-	// Return true if we have "threshold" number of signatures.
-	for _, set := range sigsByMsgRoot {
-		if len(set) == threshold {
-			return set, true, nil
-		}
+	if len(sigs) == 0 {
+		return nil, false, nil
+	}
+
+	// Return true if the most recently stored signature (always last, see store) completed
+	// "threshold" number of signatures for its message root. Groups of other roots cannot have
+	// changed; testing them again would re-trigger a group that reached the threshold earlier.
+	lastRoot, err := sigs[len(sigs)-1].MessageRoot()
+	if err != nil {
+		return nil, false, err
+	}
+
+	if set := sigsByMsgRoot[lastRoot]; len(set) == threshold {
+		return set, true, nil
 	}
 
 	return nil, false, nil
